@@ -243,7 +243,8 @@ func (t *terminal) SendMouseRaw(btn MouseBtn, press bool, mods MouseFlag, x, y i
 	case MMNone:
 		return nil
 	case MMPress:
-		if !press {
+		// X10 compatibility mode reports button presses only
+		if !press || mods&(MMotion|MWheel) != 0 {
 			return nil
 		}
 	case MMPressRelease:
